@@ -306,6 +306,17 @@ def run_line(state, sx):
                 return 'void'
         except Exception:
             pass
+    if sx[1] == 'relabel' and handles_ok(state, sx) and len(sx) == 6 and sx[4] != 'N':
+        # an affix is concatenated to every column name: a table with a key that is not a string cannot take it (TypeError by construction, not
+        # a statement about records).  The generator keeps affixes to string-named tables through its shadow; this guard looks at the real table
+        # (the shadow can be off after an operation whose outcome it mispredicted).  The rest of the history is not compared.
+        try:
+            if any(not isinstance(c, str) for c in state[_h(sx[3])].keys()):
+                _VOID.add(id(state))
+                EXTRA['affix_on_keyed_table_histories_cut'] = EXTRA.get('affix_on_keyed_table_histories_cut', 0) + 1
+                return 'void'
+        except Exception:
+            pass
     if not handles_ok(state, sx):
         return 'bad-op'
     try:
